@@ -11,7 +11,7 @@ META = {
     "outside": "opaque values returned from callbacks are covered by C12; casts between types not listed",
     "assumptions": [],
 }
-OPQ = {"schar": 8, "bool": 8, "short": 16, "uint": 32, "long": 64, "ullong": 64, "enum": 32, "float": 32, "double": 64, "intp": 64, "voidp": 64, "vs24p": 64}
+OPQ = {"alias_long": 64, "alias_ptr": 64, "schar": 8, "bool": 8, "short": 16, "uint": 32, "long": 64, "ullong": 64, "enum": 32, "float": 32, "double": 64, "intp": 64, "voidp": 64, "vs24p": 64}
 SC_TYPES = [C.SCHAR, C.UCHAR, C.SHORT, C.USHORT, C.INT, C.UINT, C.LONG, C.ULONG, C.LLONG, C.ULLONG]
 SC = {"%s_%s" % (a.tag, b.tag): (a, b) for a in SC_TYPES for b in SC_TYPES}     # every ordered (target, source) pair
 
